@@ -17,7 +17,7 @@ func init() {
 		ID:    "C16",
 		Level: "exploration",
 		Rule: "one interval set per case: 1..12 feature pairs on 1..3 contigs built from nested/abutting/chained/duplicated/random intervals; each set is piled (overlap slack 0) in >=4 insertion orders " +
-			"(all permutations for <=5 pairs in thorough), duplicates re-added in both orientations, Piles called with nil/parity/none filters and repeated; oracle = union-find under closed-interval overlap. " +
+			"(all permutations for <=5 pairs in thorough), duplicates re-added in both orientations, Piles called with nil/parity/none/location-reading filters (the last also as the first call on a piler) and repeated; oracle = union-find under closed-interval overlap. " +
 			"Non-trivial = some pile holds >=2 features and there are >=2 piles; distinct = sorted interval set",
 		Batches: func(t string) int {
 			if t == "thorough" {
@@ -29,7 +29,7 @@ func init() {
 		Case:        c16Case,
 		MinDistinct: func(t string) int { return 2000 },
 		Floors: func(string) map[string]int64 {
-			return map[string]int64{"insertion_orders": 15000, "piles_checked": 30000, "duplicates_rejected": 4000, "abutting_merges": 500, "multi_pile_merges": 300}
+			return map[string]int64{"insertion_orders": 15000, "piles_checked": 30000, "duplicates_rejected": 4000, "abutting_merges": 500, "multi_pile_merges": 300, "location_reading_filter_calls": 10000}
 		},
 		Assumptions: []string{"intervals have positive length; features are not added after Piles has been called"},
 	})
@@ -200,6 +200,41 @@ func c16Case(r *obs.Run, i int) {
 		{"even-score", func(p c16pair) bool { return p.Score%2 == 0 }, func(p *pals.Pair) bool { return p.Score%2 == 0 }},
 		{"none", func(c16pair) bool { return false }, func(*pals.Pair) bool { return false }},
 	}
+	// a filter that looks at where the images are located, as TestPiler's does: both images span at least half of
+	// their pile. Every image is in its pile from the first Piles call on, so the filter never sees anything else.
+	hull := map[[3]int][2]int{} // (loc, start, end) of an interval -> extent of its pile
+	{
+		all, _, _ := c16Ref(pairs, nil)
+		for _, pr := range pairs {
+			for _, iv := range []c16iv{pr.A, pr.B} {
+				for _, pl := range all {
+					if pl.Loc == iv.Loc && pl.From <= iv.S && iv.E <= pl.To {
+						hull[[3]int{iv.Loc, iv.S, iv.E}] = [2]int{pl.From, pl.To}
+					}
+				}
+			}
+		}
+	}
+	var unpiled int
+	half := func(s, e int, h [2]int) bool { return 2*(e-s) >= h[1]-h[0] }
+	filters = append(filters, struct {
+		name string
+		ref  func(c16pair) bool
+		f    pals.PairFilter
+	}{"half-of-pile", func(p c16pair) bool {
+		return half(p.A.S, p.A.E, hull[[3]int{p.A.Loc, p.A.S, p.A.E}]) && half(p.B.S, p.B.E, hull[[3]int{p.B.Loc, p.B.S, p.B.E}])
+	}, func(p *pals.Pair) bool {
+		ok := true
+		for _, im := range []*pals.Feature{p.A, p.B} {
+			pl, isPile := im.Loc.(*pals.Pile)
+			if !isPile {
+				unpiled++
+				return false
+			}
+			ok = ok && half(im.From, im.To, [2]int{pl.From, pl.To})
+		}
+		return ok
+	}})
 	refs := make([][]c16pile, len(filters))
 	var abut, multi int
 	for k, f := range filters {
@@ -285,12 +320,16 @@ func c16Case(r *obs.Run, i int) {
 			}
 		}
 		// Piles with each filter, nil twice (first and last)
-		seq := []int{0, 1, 2, 0}
-		if rng.Intn(2) == 0 {
-			seq = []int{1, 0, 2, 1, 0}
-		}
+		seq := [][]int{{0, 1, 3, 2, 0}, {1, 0, 2, 3, 1, 0}, {3, 0, 1, 3}, {3, 3, 2, 0}}[rng.Intn(4)]
 		for _, fi := range seq {
 			got := p.Piles(filters[fi].f)
+			if unpiled > 0 { // not itself a violation: the comparison of the reported piles with the oracle's decides
+				r.Count("filter_saw_image_not_in_a_pile", int64(unpiled))
+				unpiled = 0
+			}
+			if fi == 3 {
+				r.Count("location_reading_filter_calls", 1)
+			}
 			var gp []c16pile
 			seenFeat := map[*pals.Feature]bool{}
 			for _, pl := range got {
